@@ -320,8 +320,91 @@ func TestC03(t *testing.T) {
 	rec.Rule = "batches of 1..4 generated message programs (0..2 parts, 0..1 embeds, 0..2 attachments; QP/base64/8bit) sent through the real Client (Send on a dialled client, or DialAndSend) to the reference server over in-memory connections, with " +
 		"render faults (one body/alternative/embed/attachment producer of a message failing before its first byte, after a prefix or after its last byte, armed only during the send; on-disk attachment files deleted between AttachFile and Send), " +
 		"transport faults (connection dropped after k content bytes of a chosen DATA phase) and 0..3 non-ok replies (4yz, 5yz, drop, 421+close) at MAIL/RCPT/DATA/end-of-data/RSET/NOOP/QUIT positions. " +
+		"TestC03Enum enumerates, for batches of 1, 2 and 3 messages (plain + html + attachment each): every step id x {4yz, 5yz, drop}; every producer x {before first byte, mid-content, after last byte}; for the batch of 3 every render fault of the middle message combined with every reply fault; and a connection drop at every 40th content byte. " +
 		"Oracle from the server's commit log: every payload accepted at end-of-data is byte-identical to the harness' own WriteTo rendering of that Msg taken before the send (plus the final CRLF inherent to DATA), never a prefix; each Msg is committed at most once per call; IsDelivered() <=> a 2yz end-of-data reply for that Msg; a Msg whose rendering failed has a send error and no commit. " +
 		"Non-trivial: >= 1 non-ok reply or injected fault and at least one message reached an accepted DATA command. Distinct by (batch shapes, reply faults, drop position class, call kind)."
 	rec.Assumptions = []string{"8bit parts are generated with CRLF line breaks only (the dot-writer turns bare LF into CRLF in transit)", "a watchdog time-out marks a history inconclusive (counted)"}
 	core.Prop[c03Case]{ID: "C03", Test: "TestC03", Gen: c03Gen, Run: c03Run}.Check(t)
+}
+
+// TestC03Enum: for the batches (1), (2) and (3 with the middle one failing), every producer x
+// {before first byte, mid-content, after last byte} and every step id of the fault-free dialogue x
+// {4yz, 5yz, drop}, singly, and every render fault combined with every reply fault for the batch of 3.
+func TestC03Enum(t *testing.T) {
+	if core.ReplayArg != "" {
+		t.Skip()
+	}
+	p := core.Prop[c03Case]{ID: "C03", Test: "TestC03", Run: c03Run}
+	mk := func() gen.MsgSpec {
+		return gen.MsgSpec{Encoding: "quoted-printable",
+			Parts:       []gen.PartSpec{{CType: "text/plain", Content: []byte("plain body line one\r\nline two\r\n"), Via: "writer"}, {CType: "text/html", Content: []byte("<p>html body</p>\r\n"), Via: "writer"}},
+			Attachments: []gen.FileSpec{{Name: "file.bin", Content: bytes.Repeat([]byte("0123456789"), 20), Source: "writer"}}}
+	}
+	withFault := func(spec gen.MsgSpec, leaf, pos int) gen.MsgSpec {
+		// deep copy of the slices that are modified
+		spec.Parts = append([]gen.PartSpec{}, spec.Parts...)
+		spec.Attachments = append([]gen.FileSpec{}, spec.Attachments...)
+		var pr *gen.Producer
+		var n int
+		if leaf < 2 {
+			pr, n = &spec.Parts[leaf].Prod, len(spec.Parts[leaf].Content)
+		} else {
+			pr, n = &spec.Attachments[0].Prod, len(spec.Attachments[0].Content)
+		}
+		pr.Fail, pr.WhenArmed = true, true
+		pr.FailAfter = []int{0, n / 2, n}[pos]
+		return spec
+	}
+	outcomes := []refsmtp.Outcome{{Kind: "reply", Code: 451, Text: "4.3.0 later"}, {Kind: "reply", Code: 554, Text: "5.5.0 no"}, {Kind: "drop"}}
+	idx := 0
+	run := func(c c03Case) {
+		idx++
+		if idx%core.Shards != core.Shard {
+			return
+		}
+		core.Rec("C03").AddExtra("enumerated_fault_cases", 1)
+		if v := p.RunOne(c); v != nil {
+			t.Fatalf("VIOLATION-DETAIL property=C03 %s", v)
+		}
+	}
+	for _, n := range []int{1, 2, 3} {
+		for _, das := range []bool{false, true} {
+			var msgs []gen.MsgSpec
+			for i := 0; i < n; i++ {
+				msgs = append(msgs, mk())
+			}
+			// step ids of the fault-free dialogue
+			var steps []string
+			steps = append(steps, "noop#1")
+			for m := 1; m <= n; m++ {
+				steps = append(steps, fmt.Sprintf("mail#%d", m), fmt.Sprintf("rcpt#%d.1", m), fmt.Sprintf("data#%d", m), fmt.Sprintf("eod#%d", m), fmt.Sprintf("noop#%d", m+1), fmt.Sprintf("rset#%d", m))
+			}
+			steps = append(steps, "quit")
+			for _, st := range steps {
+				for _, o := range outcomes {
+					run(c03Case{Msgs: msgs, Steps: map[string]refsmtp.Outcome{st: o}, DialAndSend: das})
+				}
+			}
+			for mi := 0; mi < n; mi++ {
+				for leaf := 0; leaf < 3; leaf++ {
+					for pos := 0; pos < 3; pos++ {
+						fm := append([]gen.MsgSpec{}, msgs...)
+						fm[mi] = withFault(fm[mi], leaf, pos)
+						run(c03Case{Msgs: fm, DialAndSend: das})
+						if n == 3 && mi == 1 {
+							for _, st := range steps {
+								for _, o := range outcomes {
+									run(c03Case{Msgs: fm, Steps: map[string]refsmtp.Outcome{st: o}, DialAndSend: das})
+								}
+							}
+						}
+					}
+				}
+			}
+			// transport drops inside DATA at every 40th byte of the first message
+			for k := 0; k < 900; k += 40 {
+				run(c03Case{Msgs: msgs, DropData: true, DropInData: k, DataTxn: 1, DialAndSend: das})
+			}
+		}
+	}
 }
